@@ -208,8 +208,15 @@ func (i *Interp) unop(instr *ssa.UnOp, x value) value {
 		return i.load(deref(instr.X.Type()), x)
 	case token.ARROW:
 		ch, _ := x.(*chanv)
+		if ch != nil && len(ch.buf) == 0 && ch.closed {
+			z := zero(instr.X.Type().Underlying().(*types.Chan).Elem())
+			if instr.CommaOk {
+				return tuple{z, false}
+			}
+			return z
+		}
 		if ch == nil || len(ch.buf) == 0 {
-			panic(engineAbort{kind: "unsupported", msg: "blocking channel receive"})
+			panic(engineAbort{kind: "unsupported", msg: "channel receive would block (sequential schedule)"})
 		}
 		v := ch.buf[0]
 		ch.buf = ch.buf[1:]
